@@ -817,11 +817,9 @@ impl Entry {
             }
         }
         new_root.splice_children(0..new_head_len, old_head);
-        let tail_pos = new_root.children_with_tokens().count() - new_tail_len;
-        new_root.splice_children(
-            tail_pos - new_tail_len..tail_pos,
-            old_tail.into_iter().rev(),
-        );
+        // the new relation's own trailing white space: its last new_tail_len children
+        let count = new_root.children_with_tokens().count();
+        new_root.splice_children(count - new_tail_len..count, old_tail.into_iter().rev());
         let index = old_root.index();
         self.0
             .splice_children(index..index + 1, vec![new_root.into()]);
